@@ -201,6 +201,31 @@ func rangeLoops(body ast.Node) []*ast.RangeStmt {
 }
 
 // loopHead returns the entry node id of the KindRangeLoop block of rs.
+// loopHeadStmt is loopHead for range and three-clause loops.
+func (f *Flat) loopHeadStmt(st ast.Stmt) int {
+	for b, id := range f.first {
+		if (b.Kind == cfg.KindRangeLoop || b.Kind == cfg.KindForLoop) && b.Stmt == st {
+			return id
+		}
+	}
+	return -1
+}
+
+// forLoops lists the three-clause / condition-only for statements under a node (function literals excluded).
+func forLoops(n ast.Node) []*ast.ForStmt {
+	var res []*ast.ForStmt
+	ast.Inspect(n, func(x ast.Node) bool {
+		if _, ok := x.(*ast.FuncLit); ok {
+			return false
+		}
+		if fs, ok := x.(*ast.ForStmt); ok {
+			res = append(res, fs)
+		}
+		return true
+	})
+	return res
+}
+
 func (f *Flat) loopHead(rs *ast.RangeStmt) int {
 	for b, id := range f.first {
 		if b.Kind == cfg.KindRangeLoop && b.Stmt == rs {
